@@ -1,7 +1,7 @@
 (* generated: tie of one numeric kernel to the hand model *)
 From Coq Require Import ZArith List Bool String.
 Import ListNotations.
-From OSQ Require Import Num IR Construct DefaultTable Matrix Check ABA Merge McKay CNOTDec Constants ConstCheck Kernels KernelTactics.
+From OSQ Require Import Num IR Construct DefaultTable Matrix Check ABA Merge McKay CNOTDec Constants Kernels KernelTactics.
 
 Lemma aba_gates_ok : forall (T : Type) (N : Num T) (ia ib : axis_id) (q : Z) (ax : axis3 T) (angle phase : T),
   gen_aba_gates N ia ib q ax angle phase = aba_gates N ia ib (BSR q ax angle phase).
